@@ -344,6 +344,16 @@ func c32LenGuardEdges(fn *ssa.Function, buf ssa.Value, a *ssa.Alloc, minus ssa.V
 		if !ok || b.Op != token.LSS || c32LocalOf(b.Y) != a {
 			return
 		}
+		// the decoded length is an unsigned 62/64-bit value: a comparison made
+		// after converting it to a signed type is not a guard (a value >= 2^63
+		// becomes negative, passes `len(buf) < n` and the slice expression panics)
+		if bt, isB := b.Y.Type().Underlying().(*types.Basic); !isB || bt.Info()&types.IsUnsigned == 0 {
+			if at, isA := a.Type().Underlying().(*types.Pointer); isA {
+				if et, isE := at.Elem().Underlying().(*types.Basic); isE && et.Info()&types.IsUnsigned != 0 {
+					return
+				}
+			}
+		}
 		if minus == nil {
 			if c32LenOf(b.X) == buf {
 				edges[cfgEdge{ifi.Block(), 1}] = true
